@@ -495,3 +495,5 @@ def run(ctx):
     ctx.guard(c05.r05_5)
     ctx.guard(r06_6)
     ctx.guard(r06_7)
+    from . import c05 as _c05
+    ctx.guard(_c05.r05_7)           # a wrapper that rebuilds its interval while answering makes values depend on the history
